@@ -16,6 +16,7 @@ import (
 	"fmt"
 	"strings"
 
+	"github.com/blinklabs-io/gouroboros/protocol/blockfetch"
 	"verif/e1/protos"
 )
 
@@ -30,8 +31,18 @@ type model struct {
 }
 
 func newModel(p *protos.Proto, localIsClient, last bool) *model {
-	m := &model{id: p.ID(), spec: p.Spec, alpha: p.Alphabet, byBytes: map[string]string{}, localIsClient: localIsClient, last: last}
-	for _, a := range p.Alphabet {
+	m := &model{id: p.ID(), spec: p.Spec, alpha: append([]protos.Msg(nil), p.Alphabet...), byBytes: map[string]string{}, localIsClient: localIsClient, last: last}
+	if p.Name == "block-fetch" && !localIsClient {
+		// a streaming server sends blocks of different contents: a second Block letter whose
+		// encoding has the length of the first and different bytes
+		for _, a := range p.Alphabet {
+			if a.Label == "Block" {
+				m.alpha = append(m.alpha, protos.Msg{Label: "Block{2}", Spec: "Block", FromClient: false,
+					Msg: blockfetch.NewMsgBlock([]byte{0x82, 0x82, 0x05, 0x06, 0x07})})
+			}
+		}
+	}
+	for _, a := range m.alpha {
 		b, err := protos.Encode(a.Msg)
 		if err != nil {
 			panic(fmt.Sprintf("c12: cannot encode %s/%s: %v", p.ID(), a.Label, err))
